@@ -394,9 +394,8 @@ inline constexpr void Conversion<Unit::Length, Unit::Length::Microinch>::ToStand
 }
 
 template <typename NumericType>
-inline const std::
-    map<Unit::Length, std::function<void(NumericType* values, const std::size_t size)>>
-        MapOfConversionsFromStandard<Unit::Length, NumericType>{
+inline constexpr auto MapOfConversionsFromStandard<Unit::Length, NumericType>{
+  MakeConversionTable<Unit::Length, NumericType>({
           {Unit::Length::Metre,
            Conversions<Unit::Length, Unit::Length::Metre>::FromStandard<NumericType>       },
           {Unit::Length::NauticalMile,
@@ -423,12 +422,12 @@ inline const std::
            Conversions<Unit::Length, Unit::Length::Micrometre>::FromStandard<NumericType>  },
           {Unit::Length::Microinch,
            Conversions<Unit::Length, Unit::Length::Microinch>::FromStandard<NumericType>   },
+})
 };
 
 template <typename NumericType>
-inline const std::map<Unit::Length,
-                      std::function<void(NumericType* const values, const std::size_t size)>>
-    MapOfConversionsToStandard<Unit::Length, NumericType>{
+inline constexpr auto MapOfConversionsToStandard<Unit::Length, NumericType>{
+  MakeConversionTable<Unit::Length, NumericType>({
       {Unit::Length::Metre,
        Conversions<Unit::Length,                             Unit::Length::Metre>::ToStandard<NumericType>       },
       {Unit::Length::NauticalMile,
@@ -451,6 +450,7 @@ inline const std::map<Unit::Length,
        Conversions<Unit::Length,                             Unit::Length::Micrometre>::ToStandard<NumericType>  },
       {Unit::Length::Microinch,
        Conversions<Unit::Length,                             Unit::Length::Microinch>::ToStandard<NumericType>   },
+})
 };
 
 }  // namespace Internal
